@@ -157,6 +157,11 @@ def main(tier):
                     g = ProgGen(r, illtyped=0.2)
                     s, c2 = g.program(r.randint(1, 3))
                     seqs.append(mutate(r, s) if r.random() < 0.3 else s.encode())
+                if r.random() < 0.5:
+                    # a dice-heavy success first, then a text that does not parse (much shorter than the program before it)
+                    seqs = [r.choice(["1d6 + 1d6 + 1d6 + 1d6 + 1d6 + 1d6", "1 + 1 + 1 + 1 + 1 + 1 + 1 + 1 + 1 + 1 + d", "3d6kh2 + 2d4 + `{d20}` + [d6,d6].sum()",
+                                      "func f(){ 2d6 + d }; f() + f() + d8", "x = 2d6; y = 3d4; x + y + d"]).encode(),
+                            r.choice(["(", "(1", "[", "1 +", "'", "{", "`{", "f(", "1 ? 2 :"]).encode()] + seqs
                 cases.append(("wcfd," + cfg, seqs, "sequence"))
             else:
                 cases.append((cfg, [bytes(r.randrange(256) for _ in range(r.randint(0, 40)))], "random-bytes"))
